@@ -44,7 +44,8 @@ type rootKey struct {
 func TestC33Roots(t *testing.T) {
 	rapid.Check(t, func(t *rapid.T) {
 		sizes := []int{0, 1, 2, 3, 50}
-		rootsNum := sizes[rapid.IntRange(0, len(sizes)-1).Draw(t, "RootsNum")]
+		numSizes := []int{0, 1, 2, 3, 50, 101, 250, 1000}
+		rootsNum := numSizes[rapid.IntRange(0, len(numSizes)-1).Draw(t, "RootsNum")]
 		rootsFrames := sizes[rapid.IntRange(0, len(sizes)-1).Draw(t, "RootsFrames")]
 		var crits []error
 		crit := func(err error) { crits = append(crits, err) }
@@ -67,7 +68,7 @@ func TestC33Roots(t *testing.T) {
 		model := map[idx.Frame]map[rootKey]bool{}
 		counter := uint32(0)
 		// frames queried since the last change of that frame (cache may hold them), for the non-trivial rule
-		cachedThenAppended, evictedQueried, queries, adds, switches := 0, 0, 0, 0, 0
+		cachedThenAppended, evictedQueried, queries, adds, switches, bigFrames := 0, 0, 0, 0, 0, 0
 		queriedOnce := map[idx.Frame]bool{}
 		var log []string
 		check := func(f idx.Frame) {
@@ -135,6 +136,48 @@ func TestC33Roots(t *testing.T) {
 				}
 				log = append(log, fmt.Sprintf("AddRoot(spf=%d, frame=%d, creator=%d, id=%s)", spf, frame, creator, me.ID().String()))
 			},
+			"addManyRoots": func(t *rapid.T) {
+				// a frame with very many roots (many validators and forks): up to 130 registrations in a row, the
+				// frame possibly queried (so cached) before and in between
+				f := idx.Frame(rapid.IntRange(1, 2).Draw(t, "bigFrame"))
+				n := rapid.IntRange(1, 130).Draw(t, "nRoots")
+				queryAt := rapid.IntRange(-1, n).Draw(t, "queryAfter")
+				if rapid.Bool().Draw(t, "queryFirst") {
+					check(f)
+					queriedOnce[f] = true
+				}
+				if model[f] == nil {
+					model[f] = map[rootKey]bool{}
+				}
+				for i := 0; i < n; i++ {
+					creator := ids[(int(counter)+i)%len(ids)]
+					counter++
+					me := &dag.MutableBaseEvent{}
+					me.SetEpoch(store.GetEpoch())
+					me.SetCreator(creator)
+					me.SetFrame(f)
+					me.SetLamport(idx.Lamport(1 + i%3))
+					var tail [24]byte
+					tail[20], tail[21], tail[22], tail[23] = byte(counter>>24), byte(counter>>16), byte(counter>>8), byte(counter)
+					me.SetID(tail)
+					store.AddRoot(f-1, me)
+					adds++
+					model[f][rootKey{creator, me.ID()}] = true
+					if queriedOnce[f] {
+						cachedThenAppended++
+					}
+					if i == queryAt {
+						check(f)
+						queriedOnce[f] = true
+					}
+				}
+				if len(model[f]) > 100 {
+					bigFrames++
+				}
+				log = append(log, fmt.Sprintf("AddRoot x%d (frame=%d, query after %d), frame now has %d roots", n, f, queryAt, len(model[f])))
+				check(f)
+				queriedOnce[f] = true
+			},
 			"query": func(t *rapid.T) {
 				f := idx.Frame(rapid.IntRange(0, 11).Draw(t, "frame"))
 				log = append(log, fmt.Sprintf("GetFrameRoots(%d)", f))
@@ -180,6 +223,9 @@ func TestC33Roots(t *testing.T) {
 		}
 		if cachedThenAppended > 0 {
 			classes = append(classes, "append_to_cached_frame")
+		}
+		if bigFrames > 0 {
+			classes = append(classes, "frame_with_more_than_100_roots")
 		}
 		st.Case(stats.Hash(log, rootsNum, rootsFrames), cachedThenAppended > 0 || evictedQueried > 0, classes...)
 		st.Class("queries", int64(queries))
